@@ -242,10 +242,10 @@ theorem enc3U_eq_enc3 (x y z order : Nat) (ho : order ≤ MAX_ORDER_3D)
 the factor loop terminates, every value of `[min, max]` is mapped into `[0, 2^order - 1]`,
 and the mapping is monotone.  **Not proved**: `Float` is opaque to the kernel, so this
 clause is covered by the correspondence run (bit-exact comparison of `segFactor`/`segCell`
-with the implementation) and by the oracle only.  The correspondence run found that the
-termination part is FALSE of the code as it stands when `0 < max - min ≤ 2^(order-1024)`
-(`n / width` overflows to `+∞`, `nextafter(+∞, 0) = +∞`: `segFactor` = `none`, the Rust loop
-spins forever) – reported, see `corpus/C08/seg_tiny_width_hang.case`. -/
+with the implementation) and by the oracle only.  The correspondence run found the
+termination part FALSE of the code before fix 524abd8 when `0 < max - min ≤ 2^(order-1024)`
+(`n / width` overflowed to `+∞` and `nextafter(+∞, 0) = +∞`: `segFactorPrefix` = `none`,
+the Rust loop spun forever); regression case `corpus/C08/seg_tiny_width_hang.case`. -/
 def quantise_statement : Prop :=
   ∀ (min max : Float) (order : Nat), order ≤ MAX_ORDER_2D →
     min.isFinite = true → max.isFinite = true → min ≤ max →
